@@ -222,7 +222,7 @@ pub fn run(ctx: &mut Ctx) {
         "for a transaction in which an oversize frame ended the receive procedure, only the uplink, the response, the following transactions and the states are compared".into(),
         "rxc_listen() on a device without a session is not a receive opportunity: it reports NotJoined as soon as any frame is heard; the response of that call is not compared (states and everything later are)".into(),
     ];
-    let cases = ctx.tier.pick(40_000u32, 1_000_000);
+    let cases = ctx.tier.pick(80_000u32, 1_000_000);
     let seed = ctx.seed;
     let nthreads = ctx.threads as u32;
     ctx.parallel(|ti, _n, st| {
